@@ -25,6 +25,10 @@ class Module:
 
 
 FUNC = (ast.FunctionDef, ast.AsyncFunctionDef)
+# parsed modules by (absolute path, sha256): unchanged files are shared between
+# the tree under analysis and its in-memory variants (their per-function CFG /
+# flow caches stay valid because they are keyed by the function object)
+_PARSED: dict = {}
 
 
 def _link(tree: ast.AST, mod: Module) -> None:
@@ -75,12 +79,17 @@ class Tree:
                 else:
                     with open(path, "rb") as fh:
                         raw = fh.read()
+                sha = hashlib.sha256(raw).hexdigest()
+                cached = _PARSED.get((path, sha))
+                if cached is not None:
+                    self.modules[rel] = cached
+                    continue
                 try:
                     src = raw.decode("utf-8")
                     tree = ast.parse(src, filename=rel)
                 except (SyntaxError, UnicodeDecodeError) as exc:
                     raise AnalysisError(f"cannot parse {rel}: {exc}") from exc
-                mod = Module(rel, path, src, tree, hashlib.sha256(raw).hexdigest())
+                mod = Module(rel, path, src, tree, sha)
                 _link(tree, mod)
                 for node in ast.walk(tree):
                     if isinstance(node, ast.Match):
@@ -96,6 +105,7 @@ class Tree:
                         if isinstance(st.target, ast.Name):
                             mod.consts[st.target.id] = st.value
                 self.modules[rel] = mod
+                _PARSED[(path, sha)] = mod
 
     # ------------------------------------------------------------------ index
     def mod(self, rel: str) -> Module:
